@@ -551,6 +551,18 @@ func (x *Exec) solve(res *FnResult, opt Options) {
 					in.solver = sv
 					in.ms = time.Since(t1).Milliseconds()
 					in.rest = raw2
+					continue
+				}
+				// last attempt in a lean context: the universally quantified hypotheses (lemmas, global table
+				// invariants) are dropped -- proving from fewer hypotheses is sound, and goals that are plain arithmetic
+				// over the path (variants, bounds) no longer depend on one solver's instantiation heuristics
+				if lean := leanScript(s); lean != s {
+					o3, _, sv3, _ := raceSolvers([]string{"z3", "z3-new"}, lean, []checkRef{in.ref}, opt.TimeoutMS+10000)
+					if c, ok := o3[in.ref.idx]; ok && c.status == "unsat" {
+						in.status = "unsat"
+						in.solver = sv3
+						in.ms = time.Since(t1).Milliseconds()
+					}
 				}
 			}
 			// an undischarged goal must not serve as a lemma for the goals after it on the same path: those are
@@ -665,6 +677,19 @@ func (x *Exec) solve(res *FnResult, opt Options) {
 			res.EngineErr = true
 		}
 	}
+}
+
+// leanScript drops the top-level universally quantified hypotheses of a query.
+func leanScript(s string) string {
+	lines := strings.Split(s, "\n")
+	out := lines[:0:0]
+	for _, ln := range lines {
+		if strings.HasPrefix(ln, "(assert (forall ") {
+			continue
+		}
+		out = append(out, ln)
+	}
+	return strings.Join(out, "\n")
 }
 
 func firstLines(s string, n int) string {
